@@ -148,7 +148,7 @@ Record SessInv (s : cstate) (cur : cstate) (acc : inputs) (batch : list node) : 
 
 Lemma cset_input_nofwd : forall s n v, old_fwd s n = [] ->
   cs_bwd (cset_input s n v) = cs_bwd s /\ cs_dirty (cset_input s n v) = cs_dirty s.
-Proof.
+Proof using Type.
   intros s n v H. unfold cset_input, old_fwd in *. destruct (cget s n) as [i|].
   - rewrite H. cbn. auto.
   - cbn. auto.
@@ -158,7 +158,8 @@ Lemma sess_fold_inv : forall s sets cur acc rs batch cur' rs' batch',
   SessInv s cur acc batch ->
   fold_left sess_step sets (cur, rs, batch) = (cur', rs', batch') ->
   SessInv s cur' (fold_left (fun a '(i, v) => input_set a i v) sets acc) batch'.
-Proof.
+Proof using Type.
+  clear Hrk rk.
   intros s. induction sets as [|[v x] r IH]; intros cur acc rs batch cur' rs' batch' HS H; cbn [fold_left] in *.
   - inversion H. subst. exact HS.
   - rewrite sess_step_eq in H. eapply IH; [|exact H]. clear IH H.
@@ -191,6 +192,20 @@ Proof.
         destruct res; auto. apply in_or_app. auto.
 Qed.
 
+Lemma SessInv_init : forall inp s, CInv p inp s -> SessInv s (cset_ts s (cs_ts s + 1)%N) inp [].
+Proof using Type.
+  clear Hrk rk.
+  intros inp s HI.
+  split; try reflexivity.
+    - intros m i Hm Hi. change (cget s m = Some i) in Hi.
+      destruct (ci_kind _ _ _ HI m i Hi) as [(K1 & K2 & K3)|[K1 _]]; [|congruence].
+      split; [exact K2|]. split; [|split; [exact K3|]].
+      + intro d. destruct (alookup (c_obs i) d) eqn:Eo; [|reflexivity].
+        apply (ci_obs_fwd _ _ _ HI _ _ _ _ Hi) in Eo. rewrite K2 in Eo. destruct Eo.
+      + pose proof (ci_ts _ _ _ HI m i Hi). lia.
+  - intros m i0 Hm Hi0. exists i0. split; [exact Hi0|reflexivity].
+Qed.
+
 Lemma CInv_commit : forall inp s sets fuel s1 rs batch s4,
   CInv p inp s ->
   fold_left sess_step sets (cset_ts s (cs_ts s + 1)%N, [], []) = (s1, rs, batch) ->
@@ -199,15 +214,7 @@ Lemma CInv_commit : forall inp s sets fuel s1 rs batch s4,
 Proof.
   intros inp s sets fuel s1 rs batch s4 HI Hfold Hprop.
   set (inp' := fold_left (fun a '(i, v) => input_set a i v) sets inp).
-  assert (HS0 : SessInv s (cset_ts s (cs_ts s + 1)%N) inp []).
-  { split; try reflexivity.
-    - intros m i Hm Hi. change (cget s m = Some i) in Hi.
-      destruct (ci_kind _ _ _ HI m i Hi) as [(K1 & K2 & K3)|[K1 _]]; [|congruence].
-      split; [exact K2|]. split; [|split; [exact K3|]].
-      + intro d. destruct (alookup (c_obs i) d) eqn:Eo; [|reflexivity].
-        apply (ci_obs_fwd _ _ _ HI _ _ _ _ Hi) in Eo. rewrite K2 in Eo. destruct Eo.
-      + pose proof (ci_ts _ _ _ HI m i Hi). lia.
-    - intros m i0 Hm Hi0. exists i0. split; [exact Hi0|reflexivity]. }
+  pose proof (SessInv_init inp s HI) as HS0.
   pose proof (sess_fold_inv _ _ _ _ _ _ _ _ _ HS0 Hfold) as HS. fold inp' in HS.
   destruct HS as [A B C D E F].
   set (s3 := cset_visited (cset_stat s1 0%N) []) in *.
